@@ -13,7 +13,7 @@ RULE = ("Cases: pool kind FunctorPool / FactoryFunctorPool (no quota), workers 1
         "PCT priorities, or a seeded sticky walk). Oracle: the fully consumed call yields [f(x) for x in data] (imap) / the same "
         "multiset with in-chunk order (imap_unordered); no exception leaves the consumer or any pool thread; after the call no queue "
         "holds a result or work chunk (payload-free tokens ignored). E5: every schedule with <=1 (quick) / <=2 (thorough) deviations "
-        "for five small configurations (two of them with preemption at every attribute access of the pool object, i.e. also inside a source line). Non-trivial: a chunk result reached the results queue out of index order, or the schedule "
+        "for five small configurations (two of them with preemption at every attribute access of the pool object, i.e. also inside a source line); additionally every schedule with <=2 deviations placed right before accesses to attributes of the pool object (shared state) for two small configurations. Non-trivial: a chunk result reached the results queue out of index order, or the schedule "
         "deviates from the base policy, or flow control paused the feeder. Distinct = distinct (configuration, interleaving signature).")
 EXPLANATION = "exhaustive sub-domain: all schedules with <=b deviations from two base policies for the listed small configurations"
 ASSUMPTIONS = ["stand-ins have the semantics of the real primitives (DESIGN.md §3 E2 table)", "preemption granularity: source line + primitive operation",
@@ -63,9 +63,15 @@ SMALL = [
 ]
 
 
+SHARED = [
+    {"pool": "functor", "workers": 1, "quota": None, "wq": "1.0", "rq": None, "calls": [{"mode": "o", "n": 2, "chunk": 1, "input": "list"}], "_drawn": False},
+    {"pool": "functor", "workers": 1, "quota": None, "wq": "1.0", "rq": None, "calls": [{"mode": "u", "n": 2, "chunk": 1, "input": "gen", "delays": [0, 200], "tail": 0}], "_drawn": False},
+]
+
+
 def enumerations(tier):
     b = 2 if tier == "thorough" else 1
-    return [("all-schedules-<=%d-deviations-5-small-configs" % b, PC.sweep(SMALL, b, thin=1 if tier == "thorough" else 1), True)]
+    return [("all-schedules-<=2-deviations-at-shared-attribute-accesses-2-small-configs", PC.sweep_shared(SHARED), True),("all-schedules-<=%d-deviations-5-small-configs" % b, PC.sweep(SMALL, b, thin=1 if tier == "thorough" else 1), True)]
 
 
 def strategies(tier):
